@@ -32,8 +32,11 @@ LEVEL_NOTE = ("The model encodes the documented rules plus three readings of und
 DESIGN_REF = "3/C06"
 RULE = ("evaluations = histories executed (class 'requests' counts the oracle-checked requests). Non-trivial = the history contains "
         "a request that read a non-empty session written by an earlier request after the clock advanced, or a write that moved a "
-        "session between cookie and server storage, or a dead identifier (cleared / reset / moved) presented again. Distinct = "
-        "hash of the serialized case.")
+        "session between cookie and server storage, or a dead identifier (cleared / reset / moved) presented again, or a save carrying a key of 1022..1025+ bytes / a value "
+        "of 2 MiB - 2 .. 2 MiB + 1 bytes (the edge of the packed entry header: classes key_len=*, value_len=*; keys of every "
+        "length 1..1023 are generated, longer ones and values >= 2 MiB must be refused with the old state kept or carried over "
+        "exactly). A deterministic grid unit runs {key 1023, 1024, 1025} x {value 0, 2 MiB - 1, 2 MiB, 2 MiB + 1} x every "
+        "location/storage once per run. Distinct = hash of the serialized case.")
 
 
 def specs():
@@ -53,6 +56,8 @@ def units(bins, tier, seed):
     for i in range(p["net"]):
         us.append(Unit("c06_sessions.net%d" % i, [b], env={"RC_PARAMS": rc_params(seed * 1000 + 100 + i, p["net_cases"], p["maxlen"]), "C06_MAXLEN": p["maxlen"],
                                                             "C06_STORAGE": "network"}, group="histories-network", timeout=1500 if tier == "quick" else 6000))
+    # boundary grid, once per run: {key 1023, 1024, 1025} x {value 0, 2 MiB - 1, 2 MiB, 2 MiB + 1} x {client, server, both} x storages
+    us.append(Unit("c06_sessions.grid", [b, "--grid"], group="grid", timeout=1500))
     # hand-kept regression cases (the defect fixed by 752e2e8 must stay fixed); failures keep the signature of the defect
     for j, case in enumerate(sorted(glob.glob(os.path.join(verif.VERIF, "replays", ID, "known-*.case")))):
         us.append(Unit("c06_sessions.regress%d" % j, [b, "--regress", case], group="regress"))
@@ -61,7 +66,7 @@ def units(bins, tier, seed):
 
 def floor(tier):
     p = QUICK if tier == "quick" else THOROUGH
-    return {"histories": p["local"] * p["cases"], "histories-network": p["net"] * p["net_cases"], "regress": 1}
+    return {"histories": p["local"] * p["cases"], "histories-network": p["net"] * p["net_cases"], "regress": 1, "grid": 165}
 
 
 def run(tier, seed):
@@ -108,6 +113,11 @@ MUTATIONS = [
     dict(name="exposed-cookie-age-full-period", edits=[("src/session_interface.cpp", "\t\t\tset_session_cookie(cookie_age(),p->second.value,p->first);", "\t\t\tset_session_cookie(how_==browser ? 0 : timeout_val_,p->second.value,p->first);")]),
     # own: off-by-one in the bounds check of the packed format (last entry)
     dict(name="load-data-bound-off-by-one", edits=[("src/session_interface.cpp", "\t\tif(end - begin >= int(p.key_size + p.data_size)) {", "\t\tif(end - begin > int(p.key_size + p.data_size)) {")]),
+    # own: boundary of the packed entry header: a key of exactly 1024 bytes / a value of exactly 2 MiB wraps to size 0
+    dict(name="packed-key-size-1024-accepted", edits=[("src/session_interface.cpp", "\t\tif(ks >=1024) ", "\t\tif(ks > 1024) ")]),
+    dict(name="packed-value-size-2MiB-accepted", edits=[("src/session_interface.cpp", "\t\tif(ds >= 1024 * 1024 * 2)", "\t\tif(ds > 1024 * 1024 * 2)")]),
+    # own: the largest key that fits is refused
+    dict(name="packed-key-size-1023-refused", edits=[("src/session_interface.cpp", "\t\tif(ks >=1024) ", "\t\tif(ks >=1023) ")]),
     # own: file storage does not delete
     dict(name="file-storage-remove-noop", edits=[("src/session_posix_file_storage.cpp", "\tif(file.fd() >= 0)\n\t\t::unlink(file.name().c_str());\n}\n\nbool session_file_storage::read_timestamp", "\tif(file.fd() < 0)\n\t\t::unlink(file.name().c_str());\n}\n\nbool session_file_storage::read_timestamp")]),
     # own: session server ignores remove requests (network storage)
